@@ -25,12 +25,12 @@ def model_check(pid, tier):
     for module, cfg in MC[pid][tier]:
         if not os.path.exists(os.path.join(vlib.SPEC, cfg)): continue
         t0 = time.time()
-        rc, out = vlib.tlc(module, cfg, workers=vlib.NCPU, heap="-Xmx16g", timeout=3000 if tier == "thorough" else 900)     # (no -coverage: its cost model takes minutes to set up on the deeply nested RunRule)
+        rc, out = vlib.tlc(module, cfg, workers=vlib.NCPU, heap="-Xmx16g", timeout=1500 if tier == "thorough" else 900)     # (no -coverage: its cost model takes minutes to set up on the deeply nested RunRule)
         p = vlib.parse_tlc(out)
         if p["error"] and not p["violated"]: raise vlib.Infra("TLC failed on %s: %s\n%s" % (cfg, p["error"], out[-2000:]))
-        log("[%s] model checking %s: %s distinct states, %s generated, depth %s, %.0fs%s" % (pid, cfg, p["distinct"], p["states"], p["depth"], time.time() - t0,
-            (" -- invariant %s VIOLATED" % p["violated"]) if p["violated"] else ""))
-        res.append(dict(cfg=cfg, parse=p, out=out))
+        log("[%s] model checking %s: %s distinct states, %s generated, depth %s, %.0fs%s%s" % (pid, cfg, p["distinct"], p["states"], p["depth"], time.time() - t0,
+            (" -- invariant %s VIOLATED" % p["violated"]) if p["violated"] else "", " (stopped by the time limit: breadth-first prefix)" if rc == 124 else ""))
+        res.append(dict(cfg=cfg, parse=p, out=out, timed_out=(rc == 124)))
     return res
 
 def run_one(args):
@@ -183,7 +183,7 @@ def run(pid, tier, seed):
     def tot(f, agg=sum):
         xs = [m["parse"][f] for m in mc if m["parse"].get(f) is not None]
         return agg(xs) if xs else None
-    cov = dict(states=tot("distinct"), transitions=tot("states"), depth=tot("depth", max), exhaustive=True,
+    cov = dict(states=tot("distinct"), transitions=tot("states"), depth=tot("depth", max), exhaustive=not any(m.get("timed_out") for m in mc),
                mc_per_config={m["cfg"]: dict(distinct=m["parse"]["distinct"], generated=m["parse"]["states"], depth=m["parse"]["depth"]) for m in mc},
                traces_validated_against_impl=accepted, evaluations=events, histories=len(execs),
                builds=sum(m["nbuilds"] for m in meta), commands_executed=sum(m["nran"] for m in meta), distinct_nontrivial=nontriv,
